@@ -90,9 +90,14 @@ def generate(rng, idx, tier):
     for call in range(rng.randint(1, 3)):
         ol.append({"op": "run_control", "via": rng.choice(["run_control", "run_control", "runpp"]),
                    "max_iter": rng.choice([1, 2, 3, 5, 10, 30, 30]),
-                   "continue_on_divergence": rng.random() < 0.3,
+                   "continue_on_divergence": rng.random() < 0.4,
                    "fail_at": sorted(rng.sample(range(1, 10), rng.choice([0, 0, 0, 1, 2]))),
                    "kw": rng.choice([{}, {}, {"numba": False}])})
+        if len(ol[-1]["fail_at"]) == 2 and rng.random() < 0.6:
+            # an evaluation AND its single retry fail (the retry follows at once): early in the loop, where the
+            # failed pair can be the last evaluation before the controllers report convergence
+            k0 = rng.randint(1, 4)
+            ol[-1]["fail_at"] = [k0, k0 + 1]
         if rng.random() < 0.7:
             ol.append(ops.gen_set(rng))
     return {"cfg": cfg, "ops": ol}
